@@ -55,7 +55,8 @@ def render(stmts, mask=0, only=None, local_mask=0):
                 ptxt = joiner.join(t)
                 if wrap and k % 2 == 0:
                     # the parameter list may also start on the line after the model name (which is then the last token of its line)
-                    ptxt = eol + ind + "    " + ptxt
+                    toks[-1] = toks[-1] + eol + ind + "    " + ptxt        # no blank between the model name and the line end
+                    continue
                 toks.append(ptxt)
             elif t == ";":
                 toks[-1] = toks[-1] + (" ;; ;" if semis else ";")
